@@ -482,7 +482,7 @@ func init() {
 		PID: "C11", PLevel: "exploration",
 		RuleText: "one sequential client per pipeline issues 5-14 control calls (Start, Stop, Stop+Wait, StopAndWait, force stop, background waits that overlap later calls) at PRNG-chosen points of a long-running flow (both engines, parallel workers included), in three families: healthy control histories (optionally with slow store acknowledgements of every status write), histories interleaved with run failures (repeating transient destination failures with unlimited recovery, a fatal DLQ threshold, one transient failure) and gated-status races (every status write acknowledged 2-22 ms late; Stop, then Start as soon as a stopped status is visible in the store, then StopAndWait on the new run). Judged from plugin session intervals, stored status snapshots and call/return events: plugin sessions of one connector never overlap; a stop on a pipeline that is Running with a live run throughout the call is not refused and reaches that run; StopAndWait/WaitPipeline never return before the run that was live at the call is torn down and report that run's result; Start after an ended run is not refused with 'already running'; at the end the stored status agrees with whether a run is live; healthy Start/StopAndWait results are linearizable against a two-state lifecycle register (porcupine); a case exceeding its watchdog twice is a wedge, a reproduced process death a violation. Non-trivial: >=3 calls judged; distinct = distinct (engine, topology, family, number of distinct call outcomes, final status).",
 		Assume:   []string{"calls are issued one at a time per pipeline (waits may overlap), as the property's quantifier says", "a call still open at the end of the history is never logged as failed"},
-		Quick:    300, Thorough: 9000, HangIsViol: true, DeathIsViol: true,
+		Quick:    300, Thorough: 3000, HangIsViol: true, DeathIsViol: true,
 		PointBias: []string{"lifecycle.start.checked", "lifecycle.start.before-run", "lifecycle.stop.checked", "lifecycle.recover.backoff-elapsed", "lifecycle.run.ended", "pipeline.updatestatus.before-store"},
 		Anchors:   []string{"pkg/lifecycle/service.go", "pkg/lifecycle-poc/service.go", "pkg/pipeline/service.go", "pkg/pipeline/instance.go", "pkg/connector/instance.go", "pkg/processor/service.go", "pkg/lifecycle/stream/base.go", "pkg/lifecycle/stream/parallel.go"},
 		Gen:       gen, Judge: judge, Hooks: hooks,
